@@ -23,7 +23,7 @@ RULE = ("one case = one packet with its decode argument counts; non-trivial = "
         "least one header field differs from zero; distinct by case")
 ASSUMPTIONS = ["arguments are present as a prefix (arg1..argk); field values "
                "lie within their documented widths"]
-FLOORS = {"second_decode": 500, "edited_packet_encoded": 5000, "encode_compare": 1000, "decode_compare": 3000,
+FLOORS = {"defaults_left_out": 5000, "second_decode": 500, "edited_packet_encoded": 5000, "encode_compare": 1000, "decode_compare": 3000,
           "short_decode": 300}
 SHARDS = {"quick": 16, "thorough": 48}
 
@@ -119,11 +119,53 @@ def pack_sdp(f, body):
                              f["dest_x"], f["src_y"], f["src_x"]]) + body)
 
 
+DEFAULTS = dict(reply_expected=False, tag=0xff, src_port=7, src_cpu=31,
+                src_x=0, src_y=0, data=b"", seq=0, arg1=None, arg2=None,
+                arg3=None)      # as documented in the constructors
+
+
 def run(case, ctx):
     import importlib
     P = importlib.import_module("rig.machine_control.packets")
     f = dict(case["f"])
     f.pop("walk", None)
+    # a packet made with the documented defaults left out (what most callers
+    # write), and one with every argument by position
+    given = {k: v for k, v in f.items() if k not in DEFAULTS}
+    full = dict(DEFAULTS, **given)
+    if case["kind"] == "sdp":
+        for k in ("seq", "arg1", "arg2", "arg3"):
+            full.pop(k)
+        lean = P.SDPPacket(**given)
+        want_lean = pack_sdp(full, b"")
+        order = ["reply_expected", "tag", "dest_port", "dest_cpu", "src_port",
+                 "src_cpu", "dest_x", "dest_y", "src_x", "src_y", "data"]
+        pos = P.SDPPacket(*[f[k] for k in order])
+        want_pos = pack_sdp(f, f["data"])
+    else:
+        lean = P.SCPPacket(**given)
+        want_lean = pack_sdp(full, given["cmd_rc"].to_bytes(2, "little") +
+                             b"\0\0")
+        order = ["reply_expected", "tag", "dest_port", "dest_cpu", "src_port",
+                 "src_cpu", "dest_x", "dest_y", "src_x", "src_y", "cmd_rc",
+                 "seq", "arg1", "arg2", "arg3", "data"]
+        pos = P.SCPPacket(*[f[k] for k in order])
+        want_pos = None
+    ctx.hit("defaults_left_out")
+    check(bytes(lean.bytestring) == want_lean, "constructor-defaults",
+          "a packet made from %r alone encodes as %s, with the documented "
+          "defaults it is %s" % (sorted(given), bytes(lean.bytestring).hex(),
+                                 want_lean.hex()))
+    for k, v in full.items():
+        check(getattr(lean, k) == v, "constructor-defaults",
+              "%s defaults to %r, documented %r" % (k, getattr(lean, k), v))
+    for k in order:
+        check(getattr(pos, k) == f[k], "constructor-argument-order",
+              "argument %d (%s) given %r reads %r" %
+              (order.index(k), k, f[k], getattr(pos, k)))
+    if want_pos is not None:
+        check(bytes(pos.bytestring) == want_pos, "sdp-encode",
+              "by position: %s" % bytes(pos.bytestring).hex()[:80])
     if case["kind"] == "sdp":
         pkt = P.SDPPacket(**f)
         got = pkt.bytestring
